@@ -116,9 +116,27 @@ def control_offline():
     return len(_state["calls"]) > 0
 
 
+PRIMERS = ["`1 2+`Ė", "`12`E", "`1`†", "3ɾƛd;,", "λ1;†,", "@f:1|d;3@f;,", "⟨3|1|2⟩λN;Þ↓,", "1 2\"vE", "5ɾ'2%;…_", "?E,", "`@g:1|2*;3@g;`Ė,"]
+_primed = {"done": False}
+
+
+def prime_offline():
+    """Once per worker process: ordinary offline runs first (a server process may have served other work before);
+    nothing the interpreter remembers from them may weaken the online run that follows."""
+    if _primed["done"]:
+        return
+    _primed["done"] = True
+    for ptxt in PRIMERS:
+        try:
+            harness.run_main(ptxt, "", ["7"], online=False, budget=300_000)
+        except BaseException:  # noqa: BLE001
+            pass
+
+
 def check(text, flags, inputs):
     """-> ('discard', why) | None | (sig, msg); also returns (printed?, evaluated?) through _last"""
     _install()
+    prime_offline()
     harness.reset_globals()
     _state["calls"].clear()
     _state["events"].clear()
